@@ -567,6 +567,18 @@ where
             aborted: self.aborted.clone(),
         }
     }
+
+    /// Verification hook: number of tasks currently held by this command (read-only).
+    #[cfg(crux_verif)]
+    pub fn verif_live_tasks(&self) -> usize {
+        self.tasks.len()
+    }
+
+    /// Verification hook: number of effects and events queued but not yet taken (read-only).
+    #[cfg(crux_verif)]
+    pub fn verif_pending_outputs(&self) -> (usize, usize) {
+        (self.effects.len(), self.events.len())
+    }
 }
 
 impl<Effect, Event> FromIterator<Command<Effect, Event>> for Command<Effect, Event>
